@@ -178,12 +178,44 @@ def bounded(ctx):
                 got, prod, _ = ba.run_assembly(v, [Mod(CircularRecord(Seq(t_), id="m%d" % i)) for i, t_ in enumerate(mts)])
                 gotr, prodr, _ = ba.run_assembly(vr, [Mod(CircularRecord(Seq(gen.rc(t_)), id="m%d" % i)) for i, t_ in enumerate(mts)])
                 distinct.add((name, chain_len, trial))
-                if got[0] != "product" or gotr[0] != "product" or not ba.is_rotation(str(prodr.seq), gen.rc(str(prod.seq))):
+                ends_ = [str(be.observe_entity(Mod(CircularRecord(Seq(t_), id="m"))).get("overhang_end") or "").upper() for t_ in mts]
+                rc_ends = [(x_, y_) for i_, x_ in enumerate(ends_) for y_ in ends_[i_ + 1:] if x_ and gen.rc(x_) == y_]
+                if got[0] == "product" and gotr[0] == "DuplicateModules" and rc_ends:
+                    # the recorded finding (known_findings.json): the reverse-complement test of the module map looks at
+                    # start overhangs only, so the mirror image of such an assembly is refused
+                    viol.insert(0, dict(name="mirror_rc_ends", what="%s chain of %d: the assembly succeeds, its mirror image is refused with DuplicateModules: "
+                                        "two modules' downstream overhangs are reverse complements of each other (%s / %s)" % ((name, chain_len) + rc_ends[0]),
+                                        case=dict(enzyme=name, vector=vt, modules=mts)))
+                elif got[0] != "product" or gotr[0] != "product" or not ba.is_rotation(str(prodr.seq), gen.rc(str(prod.seq))):
                     viol.append(dict(name="product_%s_%d" % (name, chain_len), what="%s chain of %d: assembling the reverse complements gives %s" % (
                         name, chain_len, "%r / %r" % (got[:1], gotr[:1]) if "product" not in (got[0], gotr[0]) or got[0] != gotr[0] else "a product that is not the reverse complement of the original product"),
                                      case=dict(enzyme=name, vector=vt, modules=mts)))
             if len(samples) < 2:
                 samples.append(dict(enzyme=name, chain=chain_len))
+    # the recorded finding, deterministically (a fixed BsaI chain of two whose downstream overhangs are AACG / CGTT)
+    try:
+        from Bio.Restriction import BsaI
+        frng = random.Random(20240612)
+        Mod = type("GModule", (core.Entry,), dict(cutter=BsaI))
+        Vec = type("GVector", (core.EntryVector,), dict(cutter=BsaI))
+        m0 = ba.build_module(BsaI, "GGAG", "ATGGCATCA", "AACG", frng, backbone=8)
+        m1 = ba.build_module(BsaI, "AACG", "TTCAGGCAT", "CGTT", frng, backbone=8)
+        vt, _ = ba.build_vector(BsaI, "CGTT", "GGAG", frng)
+        if None not in (m0, m1, vt):
+            evals += 1
+            mk = lambda t_, i_, C=Mod: C(CircularRecord(Seq(t_), id=i_))
+            got, prod, _ = ba.run_assembly(Vec(CircularRecord(Seq(vt), id="v")), [mk(m0, "m0"), mk(m1, "m1")])
+            gotr, prodr, _ = ba.run_assembly(Vec(CircularRecord(Seq(gen.rc(vt)), id="v")), [mk(gen.rc(m0), "m0"), mk(gen.rc(m1), "m1")])
+            distinct.add(("finding", "rc-ends"))
+            if got[0] == "product" and gotr[0] == "DuplicateModules":
+                viol.insert(0, dict(name="mirror_rc_ends", what="BsaI chain of 2: the assembly succeeds, its mirror image is refused with DuplicateModules: "
+                                    "two modules' downstream overhangs are reverse complements of each other (AACG / CGTT)",
+                                    case=dict(enzyme="BsaI", vector=vt, modules=[m0, m1])))
+            elif not (got[0] == "product" and gotr[0] == "product" and ba.is_rotation(str(prodr.seq), gen.rc(str(prod.seq)))):
+                viol.append(dict(name="mirror_rc_ends_other", what="BsaI chain of 2 with reverse-complementary downstream overhangs: %r / mirror image %r" % (got[:2], gotr[:2]),
+                                 case=dict(enzyme="BsaI", vector=vt, modules=[m0, m1])))
+    except Exception as ex_:
+        viol.append(dict(name="mirror_rc_ends_setup", what="the fixed scenario of the recorded finding could not be run: %r" % (ex_,), case={}))
     uniq = {}
     for v_ in viol:
         uniq.setdefault(v_["name"], v_)
